@@ -432,19 +432,19 @@ fn raw_block<const L: usize>(content: &[u8; L]) -> [u8; 128] {
 /// SQPK 'F' 'A' (add file): offset 0 replaces the file by the payload; a positive offset overwrites
 /// from there and keeps every other byte
 #[kani::proof]
-#[kani::unwind(160)]
+#[kani::unwind(170)]
 #[kani::stub(core::str::validations::run_utf8_validation, ascii_utf8_validation)]
 #[kani::stub(core::slice::memchr::memchr_aligned, naive_memchr)]
 #[kani::stub(core::slice::memchr::memrchr, naive_memrchr)]
 fn c03_apply_add_file_overwrite_at_3() { apply_add_file(true, 3); }
 #[kani::proof]
-#[kani::unwind(160)]
+#[kani::unwind(170)]
 #[kani::stub(core::str::validations::run_utf8_validation, ascii_utf8_validation)]
 #[kani::stub(core::slice::memchr::memchr_aligned, naive_memchr)]
 #[kani::stub(core::slice::memchr::memrchr, naive_memrchr)]
 fn c03_apply_add_file_replace_at_0() { apply_add_file(true, 0); }
 #[kani::proof]
-#[kani::unwind(160)]
+#[kani::unwind(170)]
 #[kani::stub(core::str::validations::run_utf8_validation, ascii_utf8_validation)]
 #[kani::stub(core::slice::memchr::memchr_aligned, naive_memchr)]
 #[kani::stub(core::slice::memchr::memrchr, naive_memrchr)]
